@@ -465,10 +465,10 @@ def rule_r4_regulated(ctx: Ctx) -> None:
 
 
 def run(ctx: Ctx) -> None:
-    rule_r1_widths(ctx)
-    rule_r2_arrays(ctx)
-    rule_r3_composite(ctx)
-    rule_r4_regulated(ctx)
+    ctx.attempt(rule_r1_widths, ctx)
+    ctx.attempt(rule_r2_arrays, ctx)
+    ctx.attempt(rule_r3_composite, ctx)
+    ctx.attempt(rule_r4_regulated, ctx)
     from . import c05b
 
     c05b.run(ctx)
